@@ -344,6 +344,66 @@ def _has_cmp_with_deref(e, pos_vars):
     return False
 
 
+
+def s7_insert_result(chk, db, rec_q, funcs):
+    """insert/emplace returning pair<iterator, bool>: on every path that is possible when an equivalent element is already
+    stored, the iterator returned is the position found by the search (std: the element that prevented the insertion)."""
+    cn = comparator_names(db, rec_q)
+    n = 0
+    for f in funcs:
+        if f["n"] not in ("insert", "emplace") or "pair" not in (f.get("ret") or f.get("rty") or f.get("type") or "pair"):
+            continue
+        rets = [st for st in astx.walk_stmts(f["body"]) if st.get("k") == "return" and st.get("e") is not None]
+        if not rets:
+            continue
+        # delegating overloads return the callee's pair unchanged
+        def delegates(e):
+            e = astx.strip_casts(e)
+            return e is not None and e.get("k") == "call" and astx.callee(e)[0] in ("insert", "emplace")
+        if all(delegates(r["e"]) for r in rets):
+            continue
+        if not any(c for c in astx.all_exprs(f) if c.get("k") == "call" and astx.callee(c)[0] in ("lower_bound", "find")):
+            continue
+        n += 1
+        construct = astx.sig(f)
+        chk.instance("S7")
+        bad = None
+        keys = set(p0["n"] for p0 in f["params"])
+        for p in paths(f["body"]):
+            pos_vars = set()
+            lcn = set(cn)
+            feasible_eq = True
+            for ev in p:
+                if ev[0] == "decl" and ev[1].get("init") is not None:
+                    init = ev[1]["init"]
+                    if mentions(init, cn) and not calls_in(init):
+                        lcn.add(ev[1]["n"])
+                    elif any(astx.callee(c)[0] in ("lower_bound", "find") for c in calls_in(init)):
+                        pos_vars.add(ev[1]["n"])
+                    elif not calls_in(init) or ev[1]["ty"] in ("Key", "value_type", "key_type") or "Key{" in astx.show(init, 30):
+                        keys.add(ev[1]["n"])      # auto key = Key{args...};
+                if ev[0] == "cond" and pos_vars and mentions(ev[1], pos_vars):
+                    t = pred_truth(_subst_end_tests(ev[1]), pos_vars, keys, lcn, "=")
+                    if t is not None and t != ev[2]:
+                        feasible_eq = False
+                if ev[0] == "ret" and ev[1] is not None and feasible_eq:
+                    e = astx.strip_casts(ev[1])
+                    if delegates(e):
+                        continue
+                    args = e.get("a", []) if e is not None and e.get("k") in ("call", "construct", "initlist") else []
+                    if len(args) == 1 and args[0] is not None and args[0].get("k") == "initlist":
+                        args = args[0]["a"]
+                    first = astx.strip_casts(args[0]) if args else None
+                    ok = first is not None and first.get("k") == "ref" and first.get("n") in pos_vars
+                    if not ok and bad is None:
+                        bad = (ev[1], "returns `%s` on a path that is taken when an equivalent element is already stored; "
+                                      "std::set returns the position of that element" % astx.show(ev[1], 60))
+        chk.obligation("S7", construct, bad is None)
+        if bad:
+            chk.violation("S7", construct, "insert-result", "%s: %s" % (astx.loc(f, bad[0]), bad[1]), {"where": astx.loc(f)})
+    return n
+
+
 # ---- S4: lookup selects by equivalence -----------------------------------------------------------------------
 def pred_truth(e, elem, key, cmp_names, o):
     """truth of a predicate over (element, key) when ord(element, key) = o; None if not modelled"""
